@@ -7,12 +7,13 @@ documented (regular-language predicates); class forms equal method forms."""
 from .. import vcrun
 from ..common import native
 from . import _b1, _groups as GR
+from ._groups import EXC
 
 LEVEL = "proof"
 
 
 def run(rep, tier):
-    vcrun.run_functions(rep, GR.G3 + GR.W_GROUPS + GR.HELPERS + GR.G2, tier)
+    vcrun.run_functions(rep, GR.G3 + GR.W_GROUPS + GR.HELPERS + GR.G2 + EXC, tier)
     for q in GR.G3:
         vcrun.run_bounded(rep, q, tier, "run-time evaluation of the proved contract on the real code (cross-check; names incl. "
                                        "non-ASCII and re-invalid ones; not counted as proof)", limit=1500 if tier == "quick" else 30000)
